@@ -190,9 +190,9 @@ pub fn long_prefilter_once<const HLEN: usize>(family: u8, mode: u8) {
 
 inst!(long_inert_f0_40, [props=C03+C14 tier=quick cfg=x86std t=1800 role=long-needle-route-inert uw=Suffix::forward:70;ApproximateByteSet:35;with_ranker:35;is_equal_raw:10;rabinkarp::Finder::new:35;find_large_imp.0:10;find_large_imp.1:35;find_large_imp.2:35;find_small_imp.0:10;find_small_imp.1:35;find_small_imp.2:35], 4,
     long_route::<40>(0, 1, true));
-inst!(long_pre_f3_sse2_40, [props=C11+C05+C14 tier=quick cfg=x86std t=1800 role=long-needle-prefilter-fallback uw=Suffix::forward:70;ApproximateByteSet:35;with_ranker:35;is_equal_raw:10;rabinkarp::Finder::new:35;byte_by_byte:18;One::find_raw.0:6;find_prefilter.0:4], 4,
+inst!(long_pre_f3_sse2_40, [props=C11+C05+C14 tier=quick cfg=x86std t=1800 role=long-needle-prefilter-fallback uw=Suffix::forward:70;ApproximateByteSet:35;with_ranker:35;is_equal_raw:10;rabinkarp::Finder::new:35;byte_by_byte:18;One::find_raw.0:6;find_prefilter.0:4;oracle:35], 4,
     long_prefilter_once::<40>(3, 1));
-inst!(long_pre_f0_sse2_40, [props=C11+C05 xprops=C14 tier=quick cfg=x86std t=1800 role=long-needle-prefilter-vector uw=Suffix::forward:70;ApproximateByteSet:35;with_ranker:35;is_equal_raw:10;rabinkarp::Finder::new:35;byte_by_byte:18;One::find_raw.0:6;find_prefilter.0:4], 4,
+inst!(long_pre_f0_sse2_40, [props=C11+C05 xprops=C14 tier=quick cfg=x86std t=1800 role=long-needle-prefilter-vector uw=Suffix::forward:70;ApproximateByteSet:35;with_ranker:35;is_equal_raw:10;rabinkarp::Finder::new:35;byte_by_byte:18;One::find_raw.0:6;find_prefilter.0:4;oracle:35], 4,
     long_prefilter_once::<40>(0, 1));
 
 // ---------------------------------------------------------------------------
